@@ -293,7 +293,7 @@ def oracle_routes(ctx: Ctx, case: dict, d: dict, fl: str, suffix: str = "") -> N
             ctx.violation("route DictWriter(mode w onto an existing, loosely equal file)+DictReader: read back differs from what was written", case, enc(r2b), enc(exp))
     # the same dict / list OBJECT referenced at several places of the input (no cycle): every occurrence is written
     al = aliased_twin(d)
-    if al is not None and not case.get("np"):
+    if al is not None and not case.get("np") and in_dom(al, foam=(fl == "foam")):      # (the extra list level must stay inside the depth domain)
         try:
             exp_al = expected(copy.deepcopy(al), fl)
             text_al = formatter(fl).to_string(al)
